@@ -3,7 +3,12 @@ def svg_nontrivial(cmd, inp, impl, prev):
     t = impl.split(" ")
     if cmd == "svg.esc":
         return len(t) == 1 and len(t[0]) > len("3c74657874207374796c653d2222202f3e")   # more than `<text style="" />`
-    return len(t) > 8 and t[1] == "doc" and t[7] != "0"
+    # OUT := PR doc strEmpty kept kept2 keptMod wellformed tail args again n NODE^n ; svg.seq: several OUT separated by ';'
+    for out in impl.split(" ; "):
+        t = out.split(" ")
+        if len(t) > 11 and t[1] == "doc" and t[10] != "0":
+            return True
+    return False
 
 TB = "Trusted: Lean kernel (axioms propext, Classical.choice, Quot.sound only, audited per theorem), the correspondence check (sampled), the harness printers and Lean driver runtime. "
 
@@ -12,7 +17,9 @@ PROP = dict(search_rounds=1,
     n=dict(quick=2500, thorough=15000),
     exhaustive=dict(quick=False, thorough=False),
     rule="per generated topology (as for C13; labels none / one line / two lines / empty second line / three parts; "
-         "sub-element styles with quotes, <, >, &, control bytes, non-ASCII, U+FFFE/U+FFFF) two calls of GenerateCompositeSVGdoc + GenerateCompositeSVG with: "
+         "sub-element styles with quotes, <, >, &, control bytes, non-ASCII, U+FFFE/U+FFFF) two svg.gen records, each = GenerateCompositeSVGdoc twice with the SAME argument objects "
+         "+ GenerateCompositeSVG + the default-switch document (flags: args = the availability map equals a deep copy taken before, after every call; again = the second call gives the same "
+         "document, the first document still prints the same, the wrapper's string is XMLPretty() of the default document), with: "
          "render switches default (labels+ids) or random; base SVG: 30% one of 10 fixed valid documents without lossy feature (minimal, namespaced, nested with "
          "text and entities, multi-line attributes, style block, CDATA + character references, DOCTYPE + quotes/control characters in attribute values, internal "
          "DTD subset + text in the root + standalone declaration, self-closing root), 15% any of 27 fixed documents incl. 17 invalid (empty, blank, unclosed, "
@@ -28,9 +35,14 @@ PROP = dict(search_rounds=1,
          "zero / random subset incl. foreign ids; the record carries the encoding/xml token stream of the base (Token() with the names of RawToken(): input of "
          "model and Spec; the harness refuses a record whose summary is not the one encoding/xml gives for its base), the harness's lossy-feature flags F: "
          "(comment, mixed-text, ns-prefix, pi, dup-attr, rej-*; the driver answers NE H0:feature-flags when they differ from the Spec's features of the token "
-         "stream), what the real xmldom.ParseXML returned, every appended element (name, ordered attributes, text, printed text), and four observed flags (tree "
-         "comparison of the base part; encoding/xml token stream of the base contained in order in that of doc.XML() and doc.XMLPretty(); both printed documents "
-         "re-parse with one root and no duplicate attribute; both end with the printed appended elements), which the model predicts too (EQ includes them). Plus "
+         "stream), what the real xmldom.ParseXML returned, every appended element (name, ordered attributes, text, printed text), and five observed flags (tree "
+         "comparison of the base part; encoding/xml token stream of the base contained in order in that of doc.XML() and doc.XMLPretty(); keptMod: the same containment after deleting from BOTH "
+         "streams what the named features cover - comments, name prefixes, the processing instructions when one is not the first token, character data that is not last in its element - "
+         "computed by an independent Go normaliser on the real RawToken streams; both printed documents "
+         "re-parse with one root and no duplicate attribute; both end with the printed appended elements), which the model predicts too (EQ includes them; keptMod = 1 is a theorem). "
+         "With probability 35% per topology a svg.seq record: 3-4 renderings that share ONE availability map object and ONE Topology object (each topology assigned into it in place, its ToJSON() "
+         "is the argument): (T, base), then one or two changed topologies (the C13 field edits) and / or other bases / switches, then (T, base) again - every call judged like a svg.gen record "
+         "(bases without lossy feature only, the known findings being classified on svg.gen records). Plus "
          "svg.esc records: the go-xmldom printer on a node whose attribute value and text are arbitrary bytes. Corpus: the 26 fixed lossy / rejected documents, "
          "the rootless bases, printer bytes. Non-trivial = a document with at least one appended element / a non-empty printed string; distinct = distinct record text",
     trusted_base=["encoding/xml's tokenizer (Decoder.Token / RawToken): the token stream of the base document enters model and Spec as data (incl. that Token() "
@@ -49,7 +61,7 @@ PROP = dict(search_rounds=1,
 )
 
 CLAIM = dict(
-    text="Lean theorems (Props/C15.lean, 36 audited). PROVED for every topology, availability map (nil, empty, any entries), render switches, rotation-format "
+    text="Lean theorems (Props/C15.lean, 39 audited). PROVED for every topology, availability map (nil, empty, any entries), render switches, rotation-format "
          "table, base token stream and ALL byte strings as labels/styles: (1) C15.svg_appended_holds - the elements GenerateCompositeSVGdoc appends satisfy "
          "Spec.Svg.checkAppended: each is well-formed as printed (name rect/circle/text; attribute names XML names and pairwise distinct; the printed text is "
          "<name a=\"v\".. /> or <name a=\"v\"..>content</name> whose values/content contain no raw <, no raw & (only the five predefined entities and "
@@ -73,19 +85,25 @@ CLAIM = dict(
          "and it stays kept whatever elements are appended; comment_lost, prefix_lost, pi_lost - with any appended elements the content is NOT kept when the "
          "feature is present; mixed_text_lost - the same for mixed text when nothing is appended, and mixed_text_kept_by_coincidence: a concrete witness that "
          "with an appended element the token-containment test can be satisfied although text moved (exact guard: nothing appended); "
+         "kept_modulo_features - for EVERY document and whatever is appended, after deleting from the base and from the printed document what the four features cover "
+         "(Spec.SvgBase.normal) the rest of the base is, in order, within the rest of the printed document (Spec.SvgBase.keepsContentMod = the observed flag keptMod): a loss beyond "
+         "the named features is never predicted; the Spec names it plain base-content and checks it BEFORE the clauses that carry a feature name "
+         "(extra_loss_not_hidden_by_known_finding), so a known finding on the same record cannot hide it; "
          "wellformed_iff_no_attr_collision - the printed document has an attribute name twice in a start tag exactly when a base tag has two attributes with "
          "the same local name (attr_collision_needs_prefix: only possible with prefixes). (4) C15.svg_model_verdict / model_failure_is_classified / "
          "svg_model_holds_of_no_feature - the verdict of the whole predicate Spec.Svg.checkSVG on the model's output with the model's own flags is "
          "not-wellformed:duplicate-attribute / holds / base-content:<feature>; it is never the plain base-content or wellformed, and it is 'holds' for every "
          "document without the five features; svg_verdict_is_observation / svg_holds - for arbitrary observed flags the verdict is exactly the verdict on the "
-         "flags. (5) label_positions, label_spacing, text_transform - not fixed by the property text but by the code. CHECKED on the real library (every "
-         "record): model = code incl. parser outcome, every element, attribute order, text, every printed byte of the appended elements AND the flags kept2 / "
-         "wellformed computed with encoding/xml on the real documents; the Spec evaluated on the implementation's output. KNOWN FINDINGS (known_findings.json, "
+         "flags; model_call_ok - the per-call clauses argument-modified / not-repeatable (Spec.Svg.callOk: the availability map equals a deep copy taken before the call; the same "
+         "argument objects passed again give the same document) hold of the model, which is a function of its arguments. (5) label_positions, label_spacing, text_transform - not fixed by the property text but by the code. CHECKED on the real library (every "
+         "record): model = code incl. parser outcome, every element, attribute order, text, every printed byte of the appended elements AND the flags kept2 / keptMod / "
+         "wellformed computed with encoding/xml on the real documents, args / again observed per call; the Spec evaluated on the implementation's output. KNOWN FINDINGS (known_findings.json, "
          "8 classes, status known): on the unchanged library the property is FALSE for valid base documents with a comment, mixed content, a namespace prefix, "
          "a processing instruction that is not first (content lost), two attributes with one local name (output not well-formed), and three kinds of valid "
          "documents are rejected (8-bit encoding, XML 1.1, internal entity): the check prints KNOWN-FINDING for exactly these classes (clause name derived by the "
          "Spec from the base's token stream AND the harness's feature flag of the record must both match) and reports every other violation, in particular "
-         "content lost on a base without these features (plain base-content) and any difference between code and model.",
+         "content lost on a base without these features (plain base-content), content lost on a base WITH such a feature that the feature does not explain (keptMod = 0: plain "
+         "base-content), a modified argument, a call that is not repeatable, and any difference between code and model.",
     note=TB + "The go-xmldom round trip is modelled at token level; that printed bytes re-tokenize to the modelled tokens rests on correspondence (flags on every "
          "record), not proof. 'kept' (tree comparison) and 'tail' are observed only. The eight known-finding classes are caused by the third-party XML "
          "library (go-xmldom over encoding/xml); no repair short of replacing it.",
